@@ -91,4 +91,5 @@ def main():
 
 
 if __name__ == '__main__':
-    sys.exit(main())
+    from harness import regen as _regen      # one module identity (TranslatorError is caught by class)
+    sys.exit(_regen.main())
